@@ -1,9 +1,10 @@
 SPEC = {
     "id": "C02",
     "level": "proof",
-    "theorem_modules": ["GluonModel.Theorems.C02"],
+    "theorem_modules": ["GluonModel.Theorems.C02", "GluonModel.Theorems.SysC02"],
     "correspondences": [
         {"dialect": "flush", "quick_n": 6000, "thorough_n": 200000, "judge": "judge-c02-flush"},
+        {"dialect": "sys", "quick_n": 250, "thorough_n": 5000, "judge": "judge-c02-sys"},
     ],
     "oracles": [
         {"name": "hist", "quick_args": ["-props", "C02", "-n", "25", "-steps", "40"],
@@ -14,8 +15,10 @@ SPEC = {
         "hand-written model GluonModel/Model/{Flags,Snap,Resp,Responder}.lean of responder.handle / popResponders / State.flushResponses, tied by the `flush` correspondence dialect (differential testing, not proof)",
         "authoritative-mailbox spec GluonModel/Spec/MailboxView.lean: the table (id, UID, flags without \\Recent) in UID order with a strictly increasing UIDNext; which responder a committed change broadcasts (RespOf: add -> targetedExists, remove -> expunge, setFlags -> fetch)",
         "verif hooks internal/state/verif_export.go (VerifFlush builds the State the real flushResponses runs on)",
+        "hand-written system model GluonModel/Model/System.lean (index, sessions with snapshot / responders / update queue, QueueOrApplyStateUpdate, update filters, APPEND STORE EXPUNGE COPY MOVE, connector-originated changes, drain / flush / select), tied by the `sys` correspondence dialect: whole multi-session histories on the real server over TCP (connector without echo, hold / release / barrier hooks internal/state/verif_on.go, internal/backend/verif_barrier.go) against the model, every step's untagged responses and every final view compared",
     ],
     "assumptions": [
+        "system level (Theorems/SysC02.lean): the invariant and convergence are proved under the NAMED hypothesis NoOvertake (no session runs a mutating command or SELECT while an update for its mailbox is still in its update queue and the command hands responders to its own state); without it they are false of the code: own_update_overtakes_foreign (kernel-checked witness, reproduced on the real server by corpus/C02/sys-own-update-overtakes.ops; known finding K-own-update-overtakes-foreign). Not in the system model: \\Recent, EXAMINE, IDLE, CLOSE, UID commands, message-set syntax (single sequence numbers), storage errors, limits",
         "session-level statement: every committed change reaches the observer's queue as exactly one responder, in commit order (FIFO loss-free update queue, filters); change_target_known shows the message filter cannot drop it inside the invariant; the delivery path itself is covered by the wire-level oracle, not by theorem",
         "the database never reuses a UID and hands UIDs out in increasing order (Mbox.Admissible: a new message gets a UID >= UIDNext); this gives the named hypothesis UidsOk",
         "flush_false_replay_eq / flush_false_keeps_invariant hold for every queue inside UidsOk (witness that it is needed: flush_false_needs_fresh_uids, a reused UID); converges needs admissibility of the changes only. The former hypotheses FetchSafe / NoOwnHeld (defects #10, #8) are gone since gluon commit 'fix: while a re-added message is held back, later EXISTS and its flag changes are held back too'; the two former counter-examples are regression examples in Theorems/C02.lean and corpus/C02/defect*.ops",
